@@ -127,7 +127,7 @@ const c16Rule = "rapid draws a warrior of the dialect (length 1..12, every legal
 
 func TestC16(t *testing.T) {
 	hx.Run(t, hx.Prop[listingCase]{
-		ID: "C16", Sub: "listing", Rule: c16Rule, Checks: hx.Scale(15000, 800000),
+		ID: "C16", Sub: "listing", Rule: c16Rule, Checks: hx.Scale(15000, 4000000),
 		Gen: genListingCase, Judge: judgeListingCase,
 	})
 	if hx.ReplayPath() != "" {
